@@ -345,39 +345,17 @@ example : C08.Agree C08.toyN C08.toyE ∧
   intro _
   exact ⟨by decide, fun _ => by decide⟩
 
-/-! ### convert_index_to_field (finding F6) -/
+/-! ### convert_index_to_field (finding F6 — FIXED: `convert_to_field` now requires `!has_side_effects(key)`) -/
 
-open Rules.ConvertIndexToField in
-/-- the full claim: for every sound evaluator, `t[key]` ↦ `t.name` refines in every context,
-whenever the rule converts the key -/
-def convert_index_to_field_full : Prop :=
-  ∀ (api : EvalApi) (good : Expr → Prop), (∀ N, EvalSound N api good) →
-  ∀ (p k : Expr) (name : String), convertToField api k = some name → good k →
-  ∀ (N : NumOps) (call : CallFn N) (ρ : ExtOracle N) (n : Nat) (env : Env N) (σ σ' : State N) (vs : List (Val N)),
-    evalE call ρ n env (.index p k) σ = .ok vs σ' →
-    evalE call ρ n env (convertIndex api (.index p k)) σ = .ok vs σ'
-
+-- regression: the former F6 witness `("")[{f()} and "a"]` (an effectful key that evaluates to the string "a")
+-- is no longer converted by the (fixed) model
 open Rules.Witness in
-/-- F6: it is false — the rule never asks whether the key has side effects.
-Witness: `("")[{f()} and "a"]` ↦ `("").a` loses the external call `f()`. -/
-theorem convert_index_to_field_full_false : ¬ convert_index_to_field_full := by
-  intro hfull
-  have hconv : Rules.ConvertIndexToField.convertToField kApi K = some "a" := by decide
-  have h1 : traceLen (evalE call0 ρ0 1 env0 (.index (.str []) K) σ0) = 1 := by decide
-  have h2 : traceLen (evalE call0 ρ0 1 env0 (.field (.str []) "a") σ0) = 0 := by decide
-  cases hr : evalE call0 ρ0 1 env0 (.index (.str []) K) σ0 with
-  | timeout => simp [hr, traceLen] at h1
-  | err v σ1 => simp [hr, traceLen] at h1
-  | ok vs σ1 =>
-    have := hfull kApi notInst kApi_sound (.str []) K "a" hconv trivial
-      unitOps call0 ρ0 1 env0 σ0 σ1 vs hr
-    simp only [Rules.ConvertIndexToField.convertIndex, hconv] at this
-    rw [hr] at h1; rw [this] at h2
-    simp only [traceLen] at h1 h2
-    omega
+example : Rules.ConvertIndexToField.convertToField kApi K = none ∧
+    Rules.ConvertIndexToField.convertIndex kApi (.index (.str []) K) = .index (.str []) K := ⟨by decide, rfl⟩
 
-/-- the partial claim that IS true: under `H` — the converted key has no side effects (F6
-excluded) and allocates nothing — `t[key]` ↦ `t.name` refines in expression position … -/
+/-- `t[key]` ↦ `t.name` refines in expression position whenever the rule converts: the key is then side-effect
+free (the fix of F6 — no longer a hypothesis); what remains in `KeyOk` is the evaluator's sound region and
+"the key allocates nothing" (exact equality of STATES; the behaviour does not depend on it) … -/
 theorem convert_index_to_field_partial {N : NumOps} {api : EvalApi} {good : Expr → Prop} (hs : EvalSound N api good)
     {p k : Expr} {name : String} (hk : Rules.ConvertIndexToField.Sound.KeyOk api good k name)
     (call : CallFn N) (ρ : ExtOracle N) (n : Nat) (env : Env N) (σ σ' : State N) (vs : List (Val N))
@@ -404,7 +382,7 @@ theorem convert_index_to_field_entry_partial {N : NumOps} {api : EvalApi} {good 
 -- non-vacuity: `t["a"]` with the proved-sound `litApi` satisfies `H` and is converted
 example : Rules.ConvertIndexToField.Sound.KeyOk litApi notInst (.str [97]) "a" ∧
     Rules.ConvertIndexToField.convertIndex litApi (.index (.var "t") (.str [97])) = .field (.var "t") "a" :=
-  ⟨⟨by decide, trivial, rfl, rfl⟩, rfl⟩
+  ⟨⟨by decide, trivial, rfl⟩, rfl⟩
 
 /-! ### compute_expression (finding F5) -/
 
@@ -520,7 +498,7 @@ example : Rules.ComputeExpression.processExpr litApi (.bin .and .true (.var "x")
     litApi.isTruthy .true = some true ∧ litApi.hasSideEffects .true = false ∧ noAlloc .true = true ∧
     Rules.ComputeExpression.multi (.var "x") = false := ⟨rfl, rfl, rfl, rfl, rfl⟩
 
-/-! ### remove_nil_declaration (finding F24) -/
+/-! ### remove_nil_declaration (finding F24 — FIXED: declarations with a repeated name are left alone) -/
 
 /-- the full claim: the rewritten declaration has exactly the denotation of the original -/
 def remove_nil_declaration_full : Prop :=
@@ -529,32 +507,37 @@ def remove_nil_declaration_full : Prop :=
     execS call ρ n env s σ = .ok c σ' →
     execS call ρ n env (Rules.NilDeclaration.processLocal api s) σ = .ok c σ'
 
-/-- observable part of a declaration's result: the value of variable `a` afterwards -/
-def valueOfA : Res Rules.Witness.unitOps (Ctl Rules.Witness.unitOps) → Option Bool
-  | .ok (.next env) σ => match lookupVar env "a" σ with
-    | .nil => some false
-    | _ => some true
+/-- observable part of a declaration's result: is the FIRST freshly allocated cell `nil`? -/
+def firstCellNil : Res Rules.Witness.unitOps (Ctl Rules.Witness.unitOps) → Option Bool
+  | .ok _ σ => match σ.getCell 0 with
+    | .nil => some true
+    | _ => some false
   | _ => none
 
 open Rules.Witness in
-/-- F24: it is false. Witness: `local a, a = nil, 1` ↦ `local a, a = 1`: afterwards `a` is `nil`
-instead of `1`. -/
+/-- it is false — but since the fix of F24 only because the CELLS are numbered differently:
+`local a, b = nil, 1` ↦ `local b, a = 1` allocates the cell of `b` before the cell of `a`
+(the whole-rule statement up to cell renumbering is `rule_refines_remove_nil_declaration`). -/
 theorem remove_nil_declaration_full_false : ¬ remove_nil_declaration_full := by
   intro hfull
-  let s : Stmt := .localAssign .loc [.mk "a" none, .mk "a" none] [.nil, .num 0]
+  let s : Stmt := .localAssign .loc [.mk "a" none, .mk "b" none] [.nil, .num 0]
   have hp : Rules.NilDeclaration.processLocal litApi s
-      = .localAssign .loc [.mk "a" none, .mk "a" none] [.num 0] := rfl
-  have h1 : valueOfA (execS call0 ρ0 1 env0 s σ0) = some true := by decide
-  have h2 : valueOfA (execS call0 ρ0 1 env0 (.localAssign .loc [.mk "a" none, .mk "a" none] [.num 0]) σ0) = some false := by
-    decide
+      = .localAssign .loc [.mk "b" none, .mk "a" none] [.num 0] := rfl
+  have h1 : firstCellNil (execS call0 ρ0 1 env0 s σ0) = some true := by decide
+  have h2 : firstCellNil (execS call0 ρ0 1 env0 (.localAssign .loc [.mk "b" none, .mk "a" none] [.num 0]) σ0)
+      = some false := by decide
   cases hr : execS call0 ρ0 1 env0 s σ0 with
-  | timeout => simp [hr, valueOfA] at h1
-  | err v σ1 => simp [hr, valueOfA] at h1
+  | timeout => simp [hr, firstCellNil] at h1
+  | err v σ1 => simp [hr, firstCellNil] at h1
   | ok c σ1 =>
     have := hfull litApi notInst litApi_sound s unitOps call0 ρ0 1 env0 σ0 σ1 c hr
     rw [hp] at this
     rw [hr] at h1; rw [this] at h2
     simp [h1] at h2
+
+-- regression (F24, fixed): `local a, a = nil, 1` is left alone by the fixed model
+example : Rules.NilDeclaration.processLocal litApi (.localAssign .loc [.mk "a" none, .mk "a" none] [.nil, .num 0])
+    = .localAssign .loc [.mk "a" none, .mk "a" none] [.nil, .num 0] := rfl
 
 /-- the one shape of the rewrite that is exact as it stands (no variable moves, no cell is renumbered):
 `local x = nil` ↦ `local x` has exactly the same denotation. Every other shape moves variables and so
@@ -565,7 +548,8 @@ theorem remove_nil_declaration_single_exact (api : EvalApi) (n : TName) {N : Num
       = execS call ρ k env (.localAssign .loc [n] [.nil]) σ := by
   have : Rules.NilDeclaration.processLocal api (.localAssign .loc [n] [.nil]) = .localAssign .loc [n] [] := by
     simp [Rules.NilDeclaration.processLocal, Rules.NilDeclaration.isNil, Rules.NilDeclaration.nilIndices,
-      Rules.NilDeclaration.removeAt, Rules.NilDeclaration.wrapLast]
+      Rules.NilDeclaration.removeAt, Rules.NilDeclaration.wrapLast, Rules.NilDeclaration.distinct,
+      Rules.NilDeclaration.tnamesOf]
   rw [this]
   simp [execS, evalEs, evalE, Res.bind, bindLocals, first]
 
